@@ -106,4 +106,36 @@ theorem reach24 (interval W x : Int) (hx : 0 ≤ x ∧ x ≤ 23)
   generalize (((s : Nat) : Int) + 1) * interval = P at e1 ⊢
   omega
 
+/-! ### the same for base 60 (BYMINUTE under MINUTELY, BYSECOND under SECONDLY) -/
+
+theorem reach60_fin : ∀ i d : Fin 60, (((d : Nat) : Int) % ((Int.gcd ((i : Nat) : Int) 60 : Nat) : Int) = 0) →
+    ∃ s : Fin 60, ((((s : Nat) : Int) + 1) * ((i : Nat) : Int)) % 60 = ((d : Nat) : Int) := by
+  decide +kernel
+
+theorem reach60 (interval W x : Int) (hx : 0 ≤ x ∧ x ≤ 59)
+    (hg : (x - W) % ((Int.gcd interval 60 : Nat) : Int) = 0) :
+    ∃ s : Nat, 1 ≤ s ∧ s ≤ 60 ∧ (W + (s : Int) * interval) % 60 = x := by
+  have hgcd : Int.gcd interval 60 = Int.gcd (interval % 60) 60 := by
+    have e : interval = interval % 60 + 60 * (interval / 60) := (Int.emod_add_mul_ediv interval 60).symm
+    conv => lhs; rw [e]
+    exact Int.gcd_add_mul_left_left 60 (interval % 60) (interval / 60)
+  have hdvd : ((Int.gcd interval 60 : Nat) : Int) ∣ 60 := Int.gcd_dvd_right interval 60
+  have hd : ((x - W) % 60) % ((Int.gcd interval 60 : Nat) : Int) = 0 := by
+    rw [Int.emod_emod_of_dvd _ hdvd]; exact hg
+  have hi : 0 ≤ interval % 60 ∧ interval % 60 < 60 := by omega
+  have hdr : 0 ≤ (x - W) % 60 ∧ (x - W) % 60 < 60 := by omega
+  have := reach60_fin ⟨(interval % 60).toNat, by omega⟩ ⟨((x - W) % 60).toNat, by omega⟩
+  have c1 : (((interval % 60).toNat : Nat) : Int) = interval % 60 := by omega
+  have c2 : ((((x - W) % 60).toNat : Nat) : Int) = (x - W) % 60 := by omega
+  simp only [c1, c2] at this
+  rw [hgcd] at hd
+  obtain ⟨s, hs⟩ := this hd
+  refine ⟨(s : Nat) + 1, by omega, by have := s.isLt; omega, ?_⟩
+  have e1 : ((((s : Nat) : Int) + 1) * interval) % 60 = ((((s : Nat) : Int) + 1) * (interval % 60)) % 60 := by
+    rw [Int.mul_emod, Int.mul_emod (((s : Nat) : Int) + 1) (interval % 60), Int.emod_emod_of_dvd _ (Int.dvd_refl 60)]
+  have e2 : (((s : Nat) + 1 : Nat) : Int) * interval = (((s : Nat) : Int) + 1) * interval := by push_cast; rfl
+  rw [e2]
+  generalize (((s : Nat) : Int) + 1) * interval = P at e1 ⊢
+  omega
+
 end RRule
